@@ -10,33 +10,33 @@ Proof. destruct e as [[|x d]|]; simpl; tauto. Qed.
 Lemma sock_read_aux_spec n : forall l b d s',
   tail_fail l -> sock_read_aux n b l = (d, s') ->
   tail_fail (evs s') /\
-  ((n <= length (b ++ chunks l) /\ d = firstn n (b ++ chunks l) /\ abs s' = skipn n (b ++ chunks l))
-   \/ (length (b ++ chunks l) < n /\ d = [] /\ abs s' = b ++ chunks l /\ chunks (evs s') = [])).
+  ((n <= length (b ++ chunks l) /\ d = firstn n (b ++ chunks l) /\ sock_abs s' = skipn n (b ++ chunks l))
+   \/ (length (b ++ chunks l) < n /\ d = [] /\ sock_abs s' = b ++ chunks l /\ chunks (evs s') = [])).
 Proof.
   induction l as [|e l IH]; intros b d s' Ht H; cbn [sock_read_aux] in H.
   - destruct (Nat.leb_spec n (length b)) as [Hle|Hgt]; injection H as <- <-; cbn [evs chunks]; rewrite app_nil_r.
-    + split; [exact I|]. left. unfold abs. cbn [buf evs chunks]. rewrite app_nil_r. auto.
-    + split; [exact I|]. right. unfold abs. cbn [buf evs chunks]. rewrite app_nil_r. auto.
+    + split; [exact I|]. left. unfold sock_abs. cbn [buf evs chunks]. rewrite app_nil_r. auto.
+    + split; [exact I|]. right. unfold sock_abs. cbn [buf evs chunks]. rewrite app_nil_r. auto.
   - destruct (Nat.leb_spec n (length b)) as [Hle|Hgt].
-    + injection H as <- <-. split; [exact Ht|]. left. unfold abs. cbn [buf evs].
+    + injection H as <- <-. split; [exact Ht|]. left. unfold sock_abs. cbn [buf evs].
       rewrite app_length. split; [lia|]. split.
       * rewrite firstn_app. replace (n - length b) with 0 by lia. now rewrite firstn_O, app_nil_r.
       * rewrite skipn_app. replace (n - length b) with 0 by lia. reflexivity.
     + destruct e as [[|x d0]|].
       * injection H as <- <-. cbn [tail_fail] in Ht. destruct Ht as [Hc Ht].
-        split; [exact Ht|]. right. unfold abs. cbn [buf evs chunks app]. rewrite Hc, app_nil_r. auto.
+        split; [exact Ht|]. right. unfold sock_abs. cbn [buf evs chunks app]. rewrite Hc, app_nil_r. auto.
       * cbn [tail_fail] in Ht. specialize (IH (b ++ x :: d0) d s' Ht H).
         cbn [chunks]. rewrite <- app_assoc in IH. exact IH.
       * injection H as <- <-. cbn [tail_fail] in Ht. destruct Ht as [Hc Ht].
-        split; [exact Ht|]. right. unfold abs. cbn [buf evs chunks]. rewrite Hc, app_nil_r. auto.
+        split; [exact Ht|]. right. unfold sock_abs. cbn [buf evs chunks]. rewrite Hc, app_nil_r. auto.
 Qed.
 
 Theorem sock_read_spec n s d s' :
   tail_fail (evs s) -> sock_read n s = (d, s') ->
   tail_fail (evs s') /\
-  ((n <= length (abs s) /\ d = firstn n (abs s) /\ abs s' = skipn n (abs s))
-   \/ (length (abs s) < n /\ d = [] /\ abs s' = abs s /\ chunks (evs s') = [])).
-Proof. unfold sock_read, abs. apply sock_read_aux_spec. Qed.
+  ((n <= length (sock_abs s) /\ d = firstn n (sock_abs s) /\ sock_abs s' = skipn n (sock_abs s))
+   \/ (length (sock_abs s) < n /\ d = [] /\ sock_abs s' = sock_abs s /\ chunks (evs s') = [])).
+Proof. unfold sock_read, sock_abs. apply sock_read_aux_spec. Qed.
 
 (* a socket whose failed read showed that no data is pending *)
 Definition dead (s : sock) : Prop := chunks (evs s) = [] /\ tail_fail (evs s).
@@ -44,35 +44,35 @@ Definition dead (s : sock) : Prop := chunks (evs s) = [] /\ tail_fail (evs s).
 (* C10_readline: readline() returns the abstract bytes up to and including the next LF, or all
    that is left *)
 Lemma sock_readline_aux_spec fuel : forall line s d s',
-  tail_fail (evs s) -> length (abs s) < fuel ->
+  tail_fail (evs s) -> length (sock_abs s) < fuel ->
   sock_readline_aux fuel line s = (d, s') ->
   tail_fail (evs s') /\
-  let '(l, r) := split_line (abs s) in d = line ++ l /\ abs s' = r.
+  let '(l, r) := split_line (sock_abs s) in d = line ++ l /\ sock_abs s' = r.
 Proof.
   induction fuel as [|f IH]; intros line s d s' Ht Hf H; [lia|].
   cbn [sock_readline_aux] in H.
   destruct (sock_read 1 s) as [d1 s1] eqn:E1.
   destruct (sock_read_spec 1 s d1 s1 Ht E1) as (Ht1 & [(Hle & Hd & Ha)|(Hlt & Hd & Ha & Hc)]).
-  - destruct (abs s) as [|x rest] eqn:Eabs; [simpl in Hle; lia|].
+  - destruct (sock_abs s) as [|x rest] eqn:Eabs; [simpl in Hle; lia|].
     cbn [firstn skipn] in Hd, Ha. subst d1. cbn [split_line].
     destruct (N.eqb_spec x 10) as [->|Hx].
     + injection H as <- <-. split; [exact Ht1|]. split; [reflexivity|exact Ha].
-    + assert (Hf1: length (abs s1) < f) by (rewrite Ha; simpl in Hf; lia).
+    + assert (Hf1: length (sock_abs s1) < f) by (rewrite Ha; simpl in Hf; lia).
       destruct (IH (line ++ [x]) s1 d s' Ht1 Hf1 H) as (Ht' & Hs).
       split; [exact Ht'|]. rewrite Ha in Hs. destruct (split_line rest) as [l r].
       destruct Hs as [-> Hr]. split; [now rewrite <- app_assoc|exact Hr].
   - subst d1. injection H as <- <-. split; [exact Ht1|].
-    assert (abs s = []) by (destruct (abs s); [reflexivity|simpl in Hlt; lia]).
+    assert (sock_abs s = []) by (destruct (sock_abs s); [reflexivity|simpl in Hlt; lia]).
     rewrite H in *. cbn [split_line]. rewrite app_nil_r. auto.
 Qed.
 
 Theorem sock_readline_spec s d s' :
   tail_fail (evs s) -> sock_readline s = (d, s') ->
-  tail_fail (evs s') /\ (d, abs s') = split_line (abs s).
+  tail_fail (evs s') /\ (d, sock_abs s') = split_line (sock_abs s).
 Proof.
   intros Ht H. unfold sock_readline in H.
   destruct (sock_readline_aux_spec _ [] s d s' Ht (Nat.lt_succ_diag_r _) H) as (Ht' & Hs).
-  split; [exact Ht'|]. destruct (split_line (abs s)) as [l r]. destruct Hs as [-> ->]. reflexivity.
+  split; [exact Ht'|]. destruct (split_line (sock_abs s)) as [l r]. destruct Hs as [-> ->]. reflexivity.
 Qed.
 
 (* ------------------------------------------------------------------ *)
@@ -93,7 +93,7 @@ Notation f1S := (frame1 sock_read sock_readline nmea_hdr).
 Notation raF := (read_all file_rd file_rdl parse nmea_hdr).
 Notation raS := (read_all sock_read sock_readline parse nmea_hdr).
 
-Definition Rst (s : bytes) (st : sock) : Prop := s = abs st /\ tail_fail (evs st).
+Definition Rst (s : bytes) (st : sock) : Prop := s = sock_abs st /\ tail_fail (evs st).
 
 Inductive rel {A} : result A * bytes -> result A * sock -> Prop :=
 | rr_same r s st : Rst s st -> rel (r, s) (r, st)
@@ -106,9 +106,9 @@ Proof.
   unfold Reader.read_bytes at 2. destruct (sock_read (Datatypes.S n) st) as [d st'] eqn:E.
   destruct (sock_read_spec _ _ _ _ Ht E) as (Ht' & [(Hle & -> & Ha)|(Hlt & -> & Ha & Hc)]).
   - rewrite (read_bytes_ok parse nmea_hdr _ _ Hle).
-    rewrite firstn_length. replace (Nat.min (Datatypes.S n) (length (abs st))) with (Datatypes.S n) by lia.
+    rewrite firstn_length. replace (Nat.min (Datatypes.S n) (length (sock_abs st))) with (Datatypes.S n) by lia.
     rewrite Nat.ltb_irrefl. apply rr_same. split; [symmetry; exact Ha|exact Ht'].
-  - cbn [length]. destruct (abs st) eqn:Eabs.
+  - cbn [length]. destruct (sock_abs st) eqn:Eabs.
     + rewrite read_bytes_nil by lia. apply rr_eof.
     + rewrite (read_bytes_short parse nmea_hdr) by (try discriminate; exact Hlt). apply rr_short.
 Qed.
@@ -213,7 +213,7 @@ Qed.
 
 Lemma sock_init_R l : tail_fail l -> Rst (chunks l) (sock_init l).
 Proof.
-  intros Ht. unfold sock_init, recv, Rst, abs. cbn [evs buf].
+  intros Ht. unfold sock_init, recv, Rst, sock_abs. cbn [evs buf].
   destruct l as [|[[|x d]|] l]; cbn [snd buf evs chunks tail_fail app] in *; try tauto;
     try (destruct Ht as [-> Ht]; auto).
 Qed.
